@@ -29,6 +29,7 @@ PROFILE = Profile(
     name="routing",
     oracles={"routing", "framing"},
     weights={STEP: 10, PUB: 10, SUB: 8, CONNECT: 5, OPEN: 2, DISCONNECT: 1, CLOSE: 1, READY: 1, SETNAME: 1},
+    zero_source=True,
 )
 
 # the same routing oracle while deliveries to OTHER subscribers fail (a subscriber that left abruptly is discovered on the
